@@ -21,28 +21,77 @@ alias_from in order), then by position in the input. -/
 def candidates (W : World V) (f : PField V) (data : List (Key × V)) : List V :=
   f.allAliases.flatMap fun a => data.filterMap fun kv => if normKey W f kv.1 = a then some kv.2 else none
 
-/-- A `no_input` / `no_output` flag is on: it is True, its predicate holds for the value, it names the
-current mode — or the field does not support the current mode ("mode restricts both"). -/
+/-! ### The documented meaning of the field parameters and options, as propositions
+(docs/en/references/field.md "Optional and default", "Input and output", "Mode configuration"; options.md "Field
+behavior options", "Data processing options").  The boolean functions below them are what the driver evaluates; each
+is tied to its proposition by an `_iff` theorem in Props/C05.lean, and so are the model's predicates. -/
+
+/-- The parse runs in a mode the field does not support: `mode='rw'` lists the supported modes; no `mode` (or an empty
+one) supports every mode, and so does a parse without mode. -/
+def ModeOff (o : Opts V) (f : PField V) : Prop :=
+  ∃ m fm, o.mode = some m ∧ f.mode = some fm ∧ fm ≠ [] ∧ m ∉ fm
+
+/-- A `no_input=` / `no_output=` flag is on for the value: it is True, or a predicate that holds for the value, or a
+mode string naming the current mode — or the field does not support the current mode ("mode restricts both"). -/
+def FlagOn (W : World V) (o : Opts V) (f : PField V) (fl : Flag) (v : V) : Prop :=
+  fl = .yes ∨ (∃ k, fl = .pred k ∧ W.pred k v = true) ∨ (∃ ms m, fl = .modes ms ∧ o.mode = some m ∧ m ∈ ms) ∨ ModeOff o f
+
+/-- The field takes no input whatever the value (a predicate does not count). -/
+def NeverInput (o : Opts V) (f : PField V) : Prop :=
+  f.noInput = .yes ∨ (∃ ms m, f.noInput = .modes ms ∧ o.mode = some m ∧ m ∈ ms) ∨ ModeOff o f
+
+/-- Leaving the field out is an error: `required=True` (the default without a default value), or `required='rw'`
+naming the current mode — unless `ignore_required`, or the field cannot be given in this mode anyway. -/
+def Required (o : Opts V) (f : PField V) : Prop :=
+  o.ignoreRequired = false ∧ ¬ NeverInput o f ∧
+  (f.required = .yes ∨ ∃ ms m, f.required = .modes ms ∧ o.mode = some m ∧ m ∈ ms)
+
+/-- `x` is the default a missing field gets at parse time (`deferred = false`) or on attribute access (`deferred = true`):
+nothing under `no_default`; deferred iff `defer_default` (field or options); `force_default` before the field's own;
+always a copy (`copy_value`). -/
+def IsDefault (W : World V) (o : Opts V) (f : PField V) (deferred : Bool) (x : V) : Prop :=
+  o.noDefault = false ∧ (f.deferDefault || o.deferDefault) = deferred ∧
+  ∃ d, x = W.copy d ∧ (o.forceDefault = some d ∨ (o.forceDefault = none ∧ f.default = some d))
+
+/-- What happens to an unknown key `k` with value `v` under the addition policy: rejected (False), dropped (None),
+kept (True) or converted (a type; a failed conversion follows `invalid_values`).  The names the class keeps for itself
+(`_private`, ClassVar, methods) are never kept. -/
+inductive AdditionRule (W : World V) (typed excluded : Bool) (o : Opts V) (k : Key) (v : V) : Option V → List Err → Prop
+  | rejected : o.addition = .forbid → AdditionRule W typed excluded o k v none [.exceed k]
+  | ownName : o.addition ≠ .forbid → excluded = true → AdditionRule W typed excluded o k v none []
+  | dropped : o.addition = .ignore → excluded = false → AdditionRule W typed excluded o k v none []
+  | kept : o.addition = .allow → excluded = false → typed = false → AdditionRule W typed excluded o k v (some v) []
+  | converted (r : V) : o.addition = .allow → excluded = false → typed = true → W.addConv v = some r →
+      AdditionRule W typed excluded o k v (some r) []
+  | badExcluded : o.addition = .allow → excluded = false → typed = true → W.addConv v = none →
+      o.invalidValues = .exclude → AdditionRule W typed excluded o k v none []
+  | badPreserved : o.addition = .allow → excluded = false → typed = true → W.addConv v = none →
+      o.invalidValues = .preserve → AdditionRule W typed excluded o k v (some v) []
+  | badThrown : o.addition = .allow → excluded = false → typed = true → W.addConv v = none →
+      o.invalidValues = .throw → AdditionRule W typed excluded o k v (some v) [.parse k]
+
+/-- the mode test as a boolean -/
+def modeOff (o : Opts V) (f : PField V) : Bool :=
+  match o.mode, f.mode with | some m, some fm => !fm.isEmpty && !fm.contains m | _, _ => false
+
 def flagOn (W : World V) (o : Opts V) (f : PField V) (fl : Flag) (v : V) : Bool :=
   (match fl with
    | .yes => true
    | .pred k => W.pred k v
    | .modes ms => (match o.mode with | some m => ms.contains m | none => false)
    | .no => false)
-  || (match o.mode, f.mode with | some m, some fm => !fm.contains m | _, _ => false)
+  || modeOff o f
 
 def noInput (W : World V) (o : Opts V) (f : PField V) (v : V) : Bool := flagOn W o f f.noInput v
 def noOutput (W : World V) (o : Opts V) (f : PField V) (v : V) : Bool := flagOn W o f f.noOutput v
 
-/-- the field takes no input whatever the value (a predicate does not count) -/
 def neverInput (o : Opts V) (f : PField V) : Bool :=
   (match f.noInput with
    | .yes => true
    | .modes ms => (match o.mode with | some m => ms.contains m | none => false)
    | _ => false)
-  || (match o.mode, f.mode with | some m, some fm => !fm.contains m | _, _ => false)
+  || modeOff o f
 
-/-- absence is an error: required (in this mode), unless ignore_required or the field takes no input -/
 def required (o : Opts V) (f : PField V) : Bool :=
   !o.ignoreRequired && !neverInput o f &&
   (match f.required with
@@ -50,15 +99,15 @@ def required (o : Opts V) (f : PField V) : Bool :=
    | .modes ms => (match o.mode with | some m => ms.contains m | none => false)
    | .no => false)
 
-/-- the default filled in at parse time: none under no_default / defer_default, force_default first -/
-def filled (o : Opts V) (f : PField V) : Option V :=
+/-- the default filled in at parse time -/
+def filled (W : World V) (o : Opts V) (f : PField V) : Option V :=
   if o.noDefault || f.deferDefault || o.deferDefault then none
-  else match o.forceDefault with | some d => some d | none => f.default
+  else (match o.forceDefault with | some d => some d | none => f.default).map W.copy
 
 /-- the default computed on attribute access (defer_default) -/
-def deferred (o : Opts V) (f : PField V) : Option V :=
+def deferred (W : World V) (o : Opts V) (f : PField V) : Option V :=
   if o.noDefault || !(f.deferDefault || o.deferDefault) then none
-  else match o.forceDefault with | some d => some d | none => f.default
+  else (match o.forceDefault with | some d => some d | none => f.default).map W.copy
 
 /-- an accepted key of the field is in the input -/
 def given (W : World V) (f : PField V) (data : List (Key × V)) : Bool := !(candidates W f data).isEmpty
@@ -75,9 +124,9 @@ def fieldContract [DecidableEq V] (W : World V) (o : Opts V) (f : PField V) (dat
     FieldOut V :=
   match candidates W f data with
   | [] =>                                   -- missing: absence error, or default, or stays absent
-    if required o f then ⟨none, [.absence f.name], false, false⟩ else ⟨filled o f, [], false, false⟩
+    if required o f then ⟨none, [.absence f.name], false, false⟩ else ⟨filled W o f, [], false, false⟩
   | c :: rest =>
-    if noInput W o f c then ⟨filled o f, [], true, false⟩ else          -- input ignored
+    if noInput W o f c then ⟨filled W o f, [], true, false⟩ else          -- input ignored
     let conflict := if !o.ignoreAliasConflicts && rest.any (· ≠ c) then [Err.aliasConflict f.name] else []
     match convert W f c with
     | some r => ⟨some r, conflict, true, true⟩
@@ -88,15 +137,16 @@ def fieldContract [DecidableEq V] (W : World V) (o : Opts V) (f : PField V) (dat
       | .exclude =>
         -- a required field cannot be excluded; otherwise the dropped value leaves the field as one that was
         -- not given: its default applies, it satisfies nobody's dependency and demands none
-        if required o f then ⟨filled o f, conflict ++ [.parse f.name], true, (filled o f).isSome⟩
-        else ⟨filled o f, conflict, false, false⟩
+        if required o f then ⟨filled W o f, conflict ++ [.parse f.name], true, (filled W o f).isSome⟩
+        else ⟨filled W o f, conflict, false, false⟩
 
-/-- Unknown keys: dropped (None), kept (True), converted (type), rejected (False). -/
-def additionContract (W : World V) (typed : Bool) (o : Opts V) (kv : Key × V) : Option V × List Err :=
+/-- Unknown keys: rejected (False), dropped (None), kept (True), converted (type) — `AdditionRule` as a function. -/
+def additionContract (W : World V) (typed excluded : Bool) (o : Opts V) (kv : Key × V) : Option V × List Err :=
   match o.addition with
-  | .ignore => (none, [])
   | .forbid => (none, [.exceed kv.1])
+  | .ignore => (none, [])
   | .allow =>
+    if excluded then (none, []) else
     if !typed then (some kv.2, []) else
     match W.addConv kv.2, o.invalidValues with
     | some r, _ => (some r, [])
@@ -122,7 +172,7 @@ def contract [DecidableEq V] (W : World V) (P : Parser V) (o : Opts V) (data : L
   let wanted := (outs.filter (·.2.active)).flatMap (·.1.deps)
   let lack := (fs.map (·.name)).filter fun n => wanted.contains n && !present n
   let extra := data.filter fun kv => !fs.any (accepts W · kv.1)
-  let adds := extra.map fun kv => (kv.1, additionContract W P.additionTyped o kv)
+  let adds := extra.map fun kv => (kv.1, additionContract W P.additionTyped (P.excludeVars.contains kv.1) o kv)
   { result := outs.filterMap (fun fo => fo.2.value.map (fo.1.name, ·))
               ++ adds.filterMap (fun a => a.2.1.map (a.1, ·))
     errs := paramsContract o data.length ++ outs.flatMap (·.2.errs)
